@@ -24,11 +24,11 @@ def build_models(spec):
         for m in a['models']:
             attrs = {'__module__': '%s.models' % a['id']}
             for f in m['fields']:
-                cls = getattr(models, f['type'])
+                cls = sigs.ftype_cls(f['type'])
                 kw = dict(f['attrs'])
                 if f['type'] in ('ForeignKey', 'OneToOneField'):
                     attrs[f['name']] = cls(f['related'], on_delete=models.CASCADE, related_name='+', **kw)
-                elif f['type'] == 'ManyToManyField':
+                elif f['type'] in sigs.M2M_TYPES:
                     attrs[f['name']] = cls(f['related'], related_name='+', **kw)
                 else:
                     attrs[f['name']] = cls(**kw)
